@@ -58,6 +58,10 @@ pub struct CutCase {
     /// (after an RST), 2 = TimedOut, 3 = ConnectionAborted
     #[serde(default)]
     pub write_err: u8,
+    /// extra messages each healthy peer sends per round (so that the victim's end is met in
+    /// the same poll of the receive queue as other peers' pending messages)
+    #[serde(default)]
+    pub burst: usize,
 }
 
 pub fn victim_stream(kind: Kind, msgs: &[Vec<usize>]) -> (Vec<u8>, usize, Vec<usize>, Vec<Option<Frames>>) {
@@ -239,10 +243,14 @@ pub fn cut_outcome(c: &CutCase) -> Outcome {
                 // healthy peers talk
                 if kind.fair_queue_recv() {
                     for (hi, (l, _)) in healthy.iter().enumerate() {
-                        let seq = healthy_sent[hi].len();
-                        let (w, e) = wire_and_expect(kind, hi, seq, &[3, 0, 40], false);
-                        l.raw_send_now(&w);
-                        healthy_sent[hi].push(e.unwrap());
+                        // a REP's requesters are lock-step: one request at a time
+                        let n = if kind == Kind::Rep { 1 } else { 1 + c.burst.min(6) };
+                        for _ in 0..n {
+                            let seq = healthy_sent[hi].len();
+                            let (w, e) = wire_and_expect(kind, hi, seq, &[3, 0, 40], false);
+                            l.raw_send_now(&w);
+                            healthy_sent[hi].push(e.unwrap());
+                        }
                     }
                     // recv until pending; a REP answers each request before asking for the next
                     for _ in 0..40 {
@@ -747,7 +755,7 @@ pub fn enumerated() -> Vec<CutCase> {
                     if cut == CutKind::ProtocolError && pos < victim_stream(kind, &msgs).1 {
                         continue;
                     }
-                    for split in [0usize, 64] {
+                    for (split, burst) in [(0usize, 0usize), (64, 0), (0, 2)] {
                         v.push(CutCase {
                             kind,
                             healthy,
@@ -757,6 +765,7 @@ pub fn enumerated() -> Vec<CutCase> {
                             split,
                             rounds: 1,
                             write_err: if cut == CutKind::Reset { 1 } else { 0 },
+                            burst,
                         });
                     }
                 }
@@ -771,6 +780,7 @@ pub fn enumerated() -> Vec<CutCase> {
                     split: 0,
                     rounds: 1,
                     write_err,
+                    burst: 0,
                 });
             }
         }
@@ -803,6 +813,7 @@ pub fn gen_cut(s: &mut Src<'_>) -> CutCase {
         split: s.pick(&[0usize, 0, 1, 30, 64, 90, 100]),
         rounds: s.range(0, 3),
         write_err: s.pick(&[0u8, 0, 1, 1, 2, 3]),
+        burst: s.pick(&[0usize, 0, 1, 2, 5]),
     }
 }
 
